@@ -32,7 +32,9 @@ RULES = {
     "D3b": R3.rule_D3b,
     "D9": R3.rule_D9,
     "W5": R3.rule_W5,
+    "A11": R3.rule_A11,
     "N4": T.rule_N4,
+    "N6": N.rule_N6,
     "T8": C.rule_T8,
     "T9": B.rule_T9,
     "T10": B.rule_T10,
@@ -73,7 +75,7 @@ RULES = {
 
 PROPS = {
     "C01": {
-        "rules": ["T1", "T2", "A5", "T9p", "T12", "D6"],
+        "rules": ["T1", "T2", "A5", "T9p", "T12", "D6", "W2"],
         "claim": "Decides the wiring clauses of C01, not the computed values: every operator spelling is wired, through the "
         "five tables lexer -> get_definition -> handle_parse_node -> execute_current_instruction -> perform_*, to the "
         "public runtime function and GarnishNumber method the language table gives it; the three dispatch matches "
@@ -81,7 +83,7 @@ PROPS = {
         "(A5: at the host boundary left = popped second; T9p: the builder emits every binary construct left operand first, the two "
         "reviewed right-first constructs Pair and ApplyTo having a runtime reader that takes its first pop as the left value); and every child build node inherits its parent's containing-expression entry, only a "
         "nested expression body and the tree root starting a new one (T12: a reapply re-enters the expression it is written in); and a call "
-        "returns into its caller's frame (D6: push_frame / pop_frame of BasicGarnishData encode and decode the frame chain inversely).",
+        "returns into its caller's frame (D6: push_frame / pop_frame of BasicGarnishData encode and decode the frame chain inversely). Also (W2): a number stored by a program reads back as that number - the hash that alone keys SimpleGarnishData's constant table keeps Integer and Float apart.",
     },
     "C02": {
         "rules": ["T3", "T13"],
@@ -103,11 +105,11 @@ PROPS = {
         "node count. Termination of the remaining loops and running time are value-dependent and not decided.",
     },
     "C07": {
-        "rules": ["G2r", "G1r"],
+        "rules": ["G2r", "G1r", "A11"],
         "claim": "Decides the no-panic clause of C07 over everything reachable from execute_current_instruction and the 55 instruction "
         "functions (runtime, traits helpers, both data impls, SimpleNumber): every panic-capable site is in the reviewed allow-list "
         "with the reason it cannot fire, and every recursive cycle is allow-listed with its depth bound or reported. Value "
-        "reachability of an allow-listed site is by review, stated per site in allow/panic_sites.json. Recursive cycles are classified depth-bounded (a parameter tested against a limit with an unconditional exit, every recursive call passes it + k) or unbounded, so a change that stops counting depth turns a recorded finding into a new one.",
+        "reachability of an allow-listed site is by review, stated per site in allow/panic_sites.json. Recursive cycles are classified depth-bounded (a parameter tested against a limit with an unconditional exit, every recursive call passes it + k) or unbounded, so a change that stops counting depth turns a recorded finding into a new one. Capacity requests (Vec::with_capacity, reserve, vec![x; n], resize) are panic-capable sites too: a length taken from a value can exceed isize::MAX bytes.",
     },
     "C13": {
         "rules": ["A3", "T2", "A8", "A7", "A9", "D8"],
@@ -155,7 +157,7 @@ PROPS = {
         "key lookup searches. Order, length and that every present key is found are not decided beyond that. Also: match-based sort comparators order two keyed cells ascending by their first payload field, the key the binary search compares (T14); the end handed to Extents::new is a length / exclusive bound, never `len - 1` (D9).",
     },
     "C11": {
-        "rules": ["T5", "D1", "T15", "W4"],
+        "rules": ["T5", "D1", "T15", "W4", "A11"],
         "claim": "Decides the dispatch clauses of C11: the (type, type) dispatch of data_equal (outer match and the nested slice x slice "
         "match) is symmetric, its catch-all is the constant false, mirrored arms hand the same value roles and typed accessors to the "
         "same helper, and `!=` pushes the negation of the routine `==` pushes; the length that decides 'a single character equals the "
@@ -206,7 +208,7 @@ PROPS = {
         "as when built alone is not decided. Also (W2): the hash that alone keys SimpleGarnishData's constant table separates every two numbers the type distinguishes (per-variant feeds or the discriminant), so a later program's literal cannot be handed an earlier program's different constant.",
     },
     "C06": {
-        "rules": ["A1", "A6", "D6", "T8"],
+        "rules": ["A1", "A6", "D6", "T8", "A11"],
         "claim": "Decides the per-instruction clause of C06: on every Ok-returning path of each of the 55 instruction functions "
         "(path-partitioned abstract interpretation of their MIR against the GarnishData contract, callees summarised bottom-up) the "
         "operand-stack, value-stack and frame deltas and the jump result are the fixed constants of spec/arity.json - binary -2+1, "
@@ -219,7 +221,7 @@ PROPS = {
         "each (current frame, current register) state is decoded by pop_frame into the same state, variant by variant (writer/reader "
         "tables extracted from both matches), so a popped frame returns to its parent; and that chain survives a compaction in the middle of a call: the copy pass of optimize() rebuilds every "
         "cell as the variant it matched (T8: a FrameRegister is not written back as a FrameIndex), with the reference fields the tracing pass followed. "
-        "The dynamic depth of whole programs is not decided.",
+        "The dynamic depth of whole programs is not decided. Also (A11): the work-list helpers whose net effect A1 takes on trust (the concatenation walker, the equality work list) return Ok only after leaving a `get_register_len() > mark` test on its exit edge and pop only inside such a guard, so they neither leave borrowed operands behind nor pop their caller's.",
     },
     "C08": {
         "rules": ["A4", "A5", "A1", "G3", "T2"],
@@ -228,7 +230,7 @@ PROPS = {
         "right operand in source order (A4, A5); after a declining host exactly one unit is pushed and after an accepting host none "
         "(A1 arity on the declined / accepted edges); and for every one of the 21x21 operand type pairs of every instruction function "
         "the dedicated UnsupportedOpTypes error cannot reach the function's Err return (G3). Other error sources (data-impl errors) "
-        "are not decided. Also (A4 unit-without-offer): in a function that defers undefined combinations, no path answers unit having neither asked the host nor read / built any value (flags-only interpretation); `type_cast`'s defined cast of unit is the one reviewed exception.",
+        "are not decided. Also (A4 unit-without-offer): in a function that defers undefined combinations, no path answers unit having neither asked the host nor read / built any value (flags-only interpretation); `type_cast`'s defined cast of unit is the one reviewed exception. A declined offer is answered with the unit value made by add_unit on every path, never with a placeholder address (A4 declined-without-unit).",
     },
     "C10": {
         "rules": ["T4", "T9", "A1", "T11"],
@@ -237,7 +239,7 @@ PROPS = {
         "441 for ^^), not from the spelling of their arms; (A1) && / || push a boolean only on the edge that does not jump; (T9) the "
         "right operand of && / || and the arm of ?> / !> are compiled out of line behind the jump, re-joined through a jump-table "
         "entry, and the && / || right root ends in Tis; (T11) the loop closing a root walks the whole end list, so the JumpTo that "
-        "re-joins after the out-of-line operand / arm is always emitted. Order and at-most-one-arm in else-chains are not decided.",
+        "re-joins after the out-of-line operand / arm is always emitted. Order and at-most-one-arm in else-chains are not decided. The Tis that makes the out-of-line right operand of && / || a boolean is added on every path (must-pass-through before the right root is constructed), never 'unless the operand is already boolean'.",
     },
     "C17": {
         "rules": ["A4", "A1", "T2", "T10", "W5"],
@@ -248,14 +250,14 @@ PROPS = {
         "Counts and order across a whole program are not decided. Also (W5): every function that builds a SimpleGarnishData from another one carries over each function-pointer field (resolver, op handler), so the documented callbacks still fire on a clone.",
     },
     "C09": {
-        "rules": ["N1", "N2", "N3", "W2"],
+        "rules": ["N1", "N2", "N3", "W2", "N6"],
         "claim": "Decides the no-wrap/no-trap/finiteness clauses of C09 on the code of impl GarnishNumber for SimpleNumber and its helpers: "
         "no raw or unchecked integer arithmetic, every overflow flag is branched on, no saturating float->int cast, every Float "
         "built from an arithmetic result is dominated by a test excluding NaN and +-inf; and (W2) the result an operation stores reads "
         "back as that number: SimpleGarnishData interns stored numbers by their 64-bit hash alone, so SimpleNumber's hand-written Hash must "
         "feed the hasher a lossless encoding that keeps the Integer/Float variant apart (a narrowing cast, or a float hashed as the equal "
         "integer, makes `0.5 + 1.5` read back as the Integer 2 already in the store). The numeric exactness of std's "
-        "overflowing_*/f64 operations is trusted, not decided.",
+        "overflowing_*/f64 operations is trusted, not decided. Also (N6): 'no result' is decided on exact conditions only - no tolerance test (|x| < eps, comparison with EPSILON) turns a finite, representable quotient into unit.",
     },
     "C12": {
         "rules": ["T6", "N4", "T15", "T16"],
